@@ -119,6 +119,9 @@ type adapter struct {
 
 var adapters = []adapter{{"Gin", true}, {"Chi", false}, {"Gorilla", false}, {"Treemux", true}, {"Negroni", false}}
 
+// ginPlain: build the gin adapter on a bare gin.New() engine instead of krakendgin.NewEngine
+var ginPlain bool
+
 func setMode(colon bool) {
 	if colon {
 		config.RoutingPattern = config.ColonRouterPatternBuilder
@@ -153,10 +156,19 @@ func (c *capture) byHost(host string) []string {
 	return res
 }
 
+// calledWith: what the backend is called with - the path and, when there is one, "?" and the
+// raw query (a url_pattern may carry placeholders in its query part)
+func calledWith(req *http.Request) string {
+	if req.URL.RawQuery != "" {
+		return req.URL.Path + "?" + req.URL.RawQuery
+	}
+	return req.URL.Path
+}
+
 func (c *capture) backendFactory() proxy.BackendFactory {
 	exec := func(_ context.Context, req *http.Request) (*http.Response, error) {
 		c.mu.Lock()
-		c.paths = append(c.paths, req.URL.Path)
+		c.paths = append(c.paths, calledWith(req))
 		c.hosts = append(c.hosts, req.URL.Host)
 		c.mu.Unlock()
 		return &http.Response{StatusCode: 200, Header: http.Header{"Content-Type": []string{"application/json"}},
@@ -179,7 +191,13 @@ func buildHandler(ad string, sc config.ServiceConfig, pf proxy.Factory) (h http.
 	run := func(_ context.Context, _ config.ServiceConfig, hh http.Handler) error { h = hh; return nil }
 	switch ad {
 	case "Gin":
-		krakendgin.NewFactory(krakendgin.Config{Engine: gin.New(), Middlewares: []gin.HandlerFunc{}, HandlerFactory: krakendgin.EndpointHandler,
+		// the engine lura itself builds (NewEngine: redirects, recovery, the parameter checker
+		// that refuses encoded values), or a bare gin engine as DefaultFactory's gin.Default()
+		engine := gin.New()
+		if !ginPlain {
+			engine = krakendgin.NewEngine(sc, krakendgin.EngineOptions{Logger: logging.NoOp, Writer: io.Discard})
+		}
+		krakendgin.NewFactory(krakendgin.Config{Engine: engine, Middlewares: []gin.HandlerFunc{}, HandlerFactory: krakendgin.EndpointHandler,
 			ProxyFactory: pf, Logger: logging.NoOp, RunServer: run}).New().Run(sc)
 	case "Chi":
 		krakendchi.NewFactory(krakendchi.Config{Engine: chiengine.NewRouter(), Middlewares: chiengine.Middlewares{}, HandlerFactory: krakendchi.NewEndpointHandler,
@@ -520,7 +538,7 @@ type concObs struct {
 // request learns what ITS backend call looked like
 func echoFactory() proxy.BackendFactory {
 	exec := func(_ context.Context, req *http.Request) (*http.Response, error) {
-		b, _ := json.Marshal(map[string]string{"path": req.URL.Path})
+		b, _ := json.Marshal(map[string]string{"path": calledWith(req)})
 		return &http.Response{StatusCode: 200, Header: http.Header{"Content-Type": []string{"application/json"}},
 			Body: io.NopCloser(strings.NewReader(string(b)))}, nil
 	}
@@ -950,6 +968,10 @@ func randFrom(r *rng.R, alpha string, n int) string {
 func randValue(r *rng.R) string {
 	for {
 		v := randFrom(r, unreserved, 1+r.Intn(6))
+		if r.Chance(1, 8) {
+			// unreserved values with dots inside (not the dot-segments "." and "..")
+			v = randFrom(r, unreserved, r.Intn(3)) + r.Pick([]string{"..", ".", "...", "-..", ".~."}) + randFrom(r, unreserved, 1+r.Intn(3))
+		}
 		if v != "." && v != ".." {
 			return v
 		}
@@ -1031,6 +1053,10 @@ func main() {
 		routeSpec{segs: []tok{ph("a"), ph("b")}, be: []tok{lit("/x/"), ph("b")}, be2: []tok{lit("/x/"), ph("a")}, vals: []string{"1", "2"}, tag: "two-backends"},
 	)
 	g.runRoutes(specs, "corpus")
+	// the same names once more with the gin adapter on a bare engine
+	ginPlain = true
+	g.runRoutes(specs[:len(corpusNames)], "corpus-bare-gin-engine")
+	ginPlain = false
 
 	// ---- 1a. a first-character-case pair among 3-4 parameters, in every order, with parameters
 	// that sort between / around the pair in byte order ('Id' < 'cat' < 'id'); and controls
@@ -1104,6 +1130,25 @@ func main() {
 				more: [][]string{{"j"}, {"k"}}, hasQS: true, epQS: c.ep, beQS: c.be, queries: queries[ci%len(queries):], tag: "query-strings"})
 	}
 	g.runRoutes(specs, "query-strings")
+
+	// placeholders in the QUERY part of the url_pattern, with and without a forwarded client query
+	// of the same name
+	specs = nil
+	qq := [][][2]string{{{"q", "go"}}, {{"q", "go"}, {"category", "admin"}}, nil, {{"category", "x"}}, {{"zz", "1"}}}
+	for _, c := range []qsCfg{{[]string{"category", "q"}, nil}, {[]string{"*"}, nil}, {nil, nil}, {[]string{"category", "q"}, []string{"q"}}} {
+		specs = append(specs,
+			routeSpec{segs: []tok{lit("shop"), ph("category")}, be: []tok{lit("/search?category="), ph("category")}, vals: []string{"books"},
+				more: [][]string{{"toys"}, {"b-1"}, {"books"}, {"Zz"}}, hasQS: true, epQS: c.ep, beQS: c.be, queries: qq, tag: "placeholder-in-query-part"},
+			routeSpec{segs: []tok{ph("a"), ph("b")}, be: []tok{lit("/p/"), ph("b"), lit("?x="), ph("a"), lit("&y="), ph("b"), lit("&fixed=1")}, vals: []string{"1", "2"},
+				more: [][]string{{"2", "1"}, {"u", "v"}}, hasQS: true, epQS: c.ep, beQS: c.be, queries: [][][2]string{nil, {{"x", "9"}}, {{"q", "1"}, {"y", "8"}}}, tag: "placeholder-in-query-part"})
+	}
+	specs = append(specs,
+		routeSpec{segs: []tok{lit("shop"), ph("category")}, be: []tok{lit("/search?category="), ph("category")}, vals: []string{"books"}, more: [][]string{{"toys"}}, tag: "placeholder-in-query-part"},
+		routeSpec{segs: []tok{ph("param")}, be: []tok{lit("/url-params?p="), ph("param")}, vals: []string{"v1"}, tag: "placeholder-in-query-part"})
+	// unreserved values with dots inside, under every adapter
+	specs = append(specs, routeSpec{segs: []tok{lit("r"), ph("name")}, be: []tok{lit("/files/"), ph("name")}, vals: []string{"report..final"},
+		more: [][]string{{"a.b"}, {"x.."}, {"..x"}, {"..."}, {"a..b..c"}, {".hidden"}, {"v1.2.3"}, {"~.."}}, tag: "dots-inside-value"})
+	g.runRoutes(specs, "query-part")
 
 	// ---- 1b. instance reuse: ONE router instance per adapter serves the whole sequence -------
 	// (step-major: every route once, then every route again with other values, ...)
@@ -1424,5 +1469,5 @@ func main() {
 		g.initRaw(r.Bool(), mk(1+r.Intn(6)), mk(1+r.Intn(6)), "malformed")
 	}
 
-	w.Close("corpus (40 names incl. lengths 20..80 x 5 adapters, every order of 3-4 parameters containing a first-character-case pair, names next to the resp<N>_/JWT. reference syntax declared and undeclared with the sequential flag off/on, endpoint/backend input_query_strings x client queries with dropped keys, collisions, raw patterns) -> several endpoints per configuration (every ordered selection of 2-3 (thorough 4) of 6 endpoints, some using a parameter only another endpoint declares; Init of the whole, then every endpoint routed) and instance reuse (one router instance per adapter: 3-5 different value vectors per route, routes alternating; 12 goroutines x 40 rounds over 12 inputs per adapter, distinct (input, observation) pairs) -> library casers vs ASCII models (all names of length <= 4 (thorough 5) over abAB01-_zZ9, all 256 single bytes) -> every name of length <= 4 (thorough 6) over {a,B,1,-,_} routed under each of the 5 adapters; 0..4 parameters with every sequence of <= 3 uses; declared x used subsets of {a,A,b,ab} through Init in both routing modes -> random names over the whole grammar, 1-4 parameters, random url_pattern shapes, unreserved values -> malformed raw patterns through Init; nontrivial = a parameter is declared and used (route) / Init rejects (init)", true)
+	w.Close("corpus (40 names incl. lengths 20..80 x 5 adapters, every order of 3-4 parameters containing a first-character-case pair, names next to the resp<N>_/JWT. reference syntax declared and undeclared with the sequential flag off/on, endpoint/backend input_query_strings x client queries with dropped keys, placeholders in the query part of the url_pattern with forwarded client queries of the same name, values with dots inside, collisions, raw patterns) -> several endpoints per configuration (every ordered selection of 2-3 (thorough 4) of 6 endpoints, some using a parameter only another endpoint declares; Init of the whole, then every endpoint routed) and instance reuse (one router instance per adapter: 3-5 different value vectors per route, routes alternating; 12 goroutines x 40 rounds over 12 inputs per adapter, distinct (input, observation) pairs) -> library casers vs ASCII models (all names of length <= 4 (thorough 5) over abAB01-_zZ9, all 256 single bytes) -> every name of length <= 4 (thorough 6) over {a,B,1,-,_} routed under each of the 5 adapters; 0..4 parameters with every sequence of <= 3 uses; declared x used subsets of {a,A,b,ab} through Init in both routing modes -> random names over the whole grammar, 1-4 parameters, random url_pattern shapes, unreserved values -> malformed raw patterns through Init; nontrivial = a parameter is declared and used (route) / Init rejects (init)", true)
 }
